@@ -85,6 +85,33 @@ EQUIVALENT = {
  ('generate.go', 382, 'binop'): 'differs only by calling the injector with an empty list',
  ('generate.go', 167, 'continue-to-break'): 'differs only for an original environment entry without "=": not a valid OCI process environment',
  ('result.go', 591, 'binop'): 'appending an empty hook list changes nothing', ('result.go', 595, 'binop'): 'appending an empty hook list changes nothing',
+ # batch 2, second part
+ ('adaptation.go', 202, 'delete-call'): 'Adaptation.Stop is outside every claimed property',
+ ('adaptation.go', 492, 'delete-assign'): 'only Stop uses the recorded listener',
+ ('adaptation.go', 506, 'continue-to-break'): 'only differs when wrapping an accepted connection into a plugin fails, which needs an OS error',
+ ('adaptation.go', 445, 'delete-assign'): 'closed plugins are already closed; stop() of an external plugin does nothing more',
+ ('adaptation.go', 591, 'binop'): 'guards logging only',
+ ('adaptation.go', 139, 'binop'): 'wasm runtime set-up: launched plugins, not applicable',
+ ('mux.go', 310, 'delete-assign'): 'a net.Conn read never returns ttrpc.ErrClosed: dead case',
+ ('mux.go', 332, 'delete-assign'): 'a net.Conn read never returns ttrpc.ErrClosed: dead case',
+ ('mux.go', 199, 'int+1'): 'channel capacity 2 instead of 1',
+ ('plugin.go', 282, 'delete-assign'): 'the peer pid only appears in log texts',
+ ('plugin.go', 575, 'negate-if'): 'chunk-size heuristic: changes how many messages a split synchronization takes, and outcomes only in the few-large-objects regime where C09 accepts success and clean failure alike',
+ ('plugin.go', 576, 'delete-assign'): 'chunk-size heuristic, as above', ('plugin.go', 559, 'negate-if'): 'chunk-size heuristic, as above',
+ ('plugin.go', 535, 'int+1'): 'chunk-size heuristic, as above', ('plugin.go', 567, 'binop'): 'chunk-size heuristic, as above',
+ ('plugin.go', 329, 'delete-call'): 'failure path of start: the caller closes the plugin as well',
+ ('plugin.go', 251, 'delete-call'): 'a plugin whose connection dropped is closed by the next relay that fails on it (isFatalError); nothing reaches it either way',
+ ('plugin.go', 514, 'delete-call'): 'the registration fails with the returned error and the caller closes the plugin',
+ ('plugin.go', 351, 'delete-call'): 'closing the mux below closes the client connection too',
+ ('stub.go', 708, 'delete-assign'): 'close() resets the collected request as well, and one session synchronizes once',
+ ('stub.go', 426, 'delete-assign'): 'closing the mux closes the listener connection too',
+ ('stub.go', 427, 'delete-assign'): 'the server stops when its listener fails after the mux is closed',
+ ('stub.go', 484, 'delete-call'): 'the server stops when its listener fails after the mux is closed',
+ ('stub.go', 389, 'delete-call'): 'failure path: the deferred mux Close stops the server too',
+ ('stub.go', 216, 'delete-assign'): 'the plugin name is not part of any claimed property (C17 only needs it non-empty, which the binary name is)',
+ ('stub.go', 832, 'negate-if'): 'plugin identity derived from the binary name; every harness passes name and index explicitly',
+ ('generate.go', 170, 'int+1'): 'as the deletion on the same line: the upstream generator replaces an existing variable in place',
+ ('generate.go', 136, 'negate-if'): 'last statement of Adjust and AdjustRlimits never fails: returns nil either way',
 }
 cnt = collections.Counter(r['outcome'].split(' (')[0] for r in rs)
 print(len(rs), 'mutants:', dict(cnt))
